@@ -191,7 +191,39 @@ def build(cfg, f, interp_op, integrator=None):
     for (l0, l1) in cfg.get("warm", []):
         with quiet():
             sc.set_combi_parameters(int(l0), int(l1))
+    # foreign-object history: sibling StandardCombi objects of the same dimension with ANOTHER box / other boundary
+    # flags live in the same process and work (same level vectors) before the object under test is observed; state
+    # shared between objects (class attributes, module globals) must not leak from one to the other
+    if cfg.get("siblings") and not cfg.get("_is_sibling"):
+        sc._verif_siblings = [build_sibling(cfg, sib) for sib in cfg["siblings"]]
+        work_siblings(sc, cfg)
     return sc, grid, op
+
+
+def build_sibling(cfg, sib):
+    c2 = dict(cfg, a=sib["a"], b=sib["b"], bd=sib["bd"], _is_sibling=True)
+    for k in ("flags", "via", "warm", "siblings"):
+        c2.pop(k, None)
+    if "flags" in sib:
+        c2["flags"], c2["via"] = sib["flags"], sib.get("via", "mixed")
+    from sparseSpACE.Function import FunctionLinear
+    g = FunctionLinear([float(d + 1) for d in range(cfg["dim"])])
+    return build(c2, g, False)[0]
+
+
+def work_siblings(sc, cfg):
+    """let every sibling object do what the object under test is going to do"""
+    lmin, lmax, dim = cfg["lmin"], cfg["lmax"], cfg["dim"]
+    for sib in getattr(sc, "_verif_siblings", []):
+        with quiet():
+            sib.perform_operation(lmin, lmax)
+            for g in sib.scheme:
+                sib.get_points_component_grid(g.levelvector)
+                sib.get_num_points_component_grid(g.levelvector, False)
+            sib.get_points_and_weights()
+            mid = [tuple(float((sib.a[d] + sib.b[d]) / 2) for d in range(dim))]
+            sib(mid)
+            sib.interpolate_grid([[mid[0][d]] for d in range(dim)])
 
 
 # ------------------------------------------------------------------------------------------------ generators
@@ -268,6 +300,19 @@ def gen_cfg0(ctx, thorough, far=False):
     elif x < 0.45:
         cfg["flags"] = [bd] * dim
         cfg["via"] = r.choice(["mixed", "set_boundaries"])
+    if r.random() < 0.35 and est_cost(cfg) <= 8000:
+        sibs = []
+        for _ in range(r.choice([1, 1, 2])):
+            sa = [r.choice(BOX_STARTS) for _ in range(dim)]
+            sb = [sa[d] + r.choice(BOX_LENGTHS) for d in range(dim)]
+            sib = {"a": [float(v) for v in sa], "b": [float(v) for v in sb], "bd": r.random() < 0.5}
+            if dim >= 2 and r.random() < 0.3:
+                sfl = [r.random() < 0.5 for _ in range(dim)]
+                sfl[0], sfl[1] = True, False
+                r.shuffle(sfl)
+                sib["flags"], sib["bd"], sib["via"] = sfl, False, "mixed"
+            sibs.append(sib)
+        cfg["siblings"] = sibs
     if r.random() < 0.4:   # same level difference with another lmin first, sometimes also a different difference
         warm = [[lmin + 1, lmin + 1 + span]] if (lmin == 1 or r.random() < 0.5) else [[lmin - 1, lmin - 1 + span]]
         if r.random() < 0.3:
